@@ -252,8 +252,10 @@ class CircularEquilibrium(Equilibrium):
                 exponent_list = range(1, 2 * len(coef_list) + 1, 2)
 
                 def func(x):
+                    # exponent_list holds the (odd) exponents of the terms of dq/dr:
+                    # d/dr(c*r**(e+1)) = c*(e+1)*r**e
                     return sum(
-                        c * e * x ** (e - 1) for c, e in zip(coef_list, exponent_list)
+                        c * (e + 1) * x**e for c, e in zip(coef_list, exponent_list)
                     )
 
                 self._dqdr = func
